@@ -470,6 +470,28 @@ def encoders(ctx, r, F):
         step, pre = loop_step(b)
         ok = False
         desc = "loop not recognised"
+        if step is None:
+            # the same iteration handed to Iterator::for_each with the step as a closure
+            fe = _closure_iteration(F, b, "for_each")
+            if fe is not None:
+                names, by_value, cb, a0, a1 = fe
+                ci, vi = 0, 1
+                if names == ["iter", "chunks_exact_mut", "zip"]:
+                    names, a0, a1, ci, vi = ["chunks_exact_mut", "iter", "zip"], a1, a0, 1, 0  # src.iter().zip(dst.chunks_exact_mut(2)): the item is (value, chunk)
+                if names == ["chunks_exact_mut", "iter", "zip"] and a0 == [P(1), C(2)] and a1 in ([P(2)], [("deref", P(2))]):
+                    Sc = sym.Sym(cb)
+                    cps = [q for q in Sc.paths() if q.end == "return"]
+                    if len(cps) == 1:
+                        item = P(2)
+                        chunk = ("field", item, ci)
+                        val = ("field", item, vi) if by_value else ("load", ("deref", ("field", item, vi)))
+                        why = digit_pair(Sc, F, cps[0], val, chunk, nm == "encode_rev_array", tabs)
+                        desc = why or "digit pair ok"
+                        ok = why is None
+                    else:
+                        desc = "for_each closure with %d returning paths" % len(cps)
+                else:
+                    desc = "for_each over %s" % names
         if step is not None:
             want_pre = ["chunks_exact_mut", "iter", "zip", "into_iter"]
             pre_names = [c[1].rsplit("::", 1)[-1] for c in pre.calls if c[1].rsplit("::", 1)[-1] not in ("copied", "cloned")]
@@ -500,6 +522,45 @@ def encoders(ctx, r, F):
         step, pre = loop_step(b)
         ok = False
         desc = "loop not recognised"
+        if step is None:
+            # `len == 2N && dst.iter_mut().zip(src.chunks_exact(2)).all(|(d, c)| match decode(c) { Some(v) => { *d = v; true } None => false })`
+            fa = _closure_iteration(F, b, "all")
+            if fa is not None:
+                names, _bv, cb, a0, a1 = fa
+                S0 = sym.Sym(b)
+                dec_ = cmpmodel.decision(b)
+                LEN2 = ("call", "core::slice::<impl [T]>::len", (P(2),))
+                K2 = binop("Mul", ("cparam", "N"), C(2))
+                gates_ok = len(dec_) == 2
+                for cs, ret in dec_:
+                    if len(cs) != 1 or cs[0][0] not in (binop("Eq", LEN2, K2), binop("Ne", LEN2, K2)):
+                        gates_ok = False
+                        continue
+                    len_ok = cs[0][1] == (cs[0][0][1] == "Eq")
+                    if len_ok:
+                        gates_ok = gates_ok and ret[0] == "call" and ret[1].endswith("::all")
+                    else:
+                        gates_ok = gates_ok and ret == C(0)
+                Sc = sym.Sym(cb)
+                cps = [q for q in Sc.paths() if q.end == "return"]
+                item = P(2)
+                decc = ("call", H + one, (("field", item, 1),))
+                step_ok = len(cps) == 2
+                for q in cps:
+                    cs = [(n(d), S_v) for (_, d, S_v, _) in q.conds]
+                    stores = [(n(pl), n(v)) for _, pl, v in q.stores]
+                    if len(q.conds) != 1 or n(q.conds[0][1]) != ("discr", decc):
+                        step_ok = False
+                        continue
+                    vn = Sc.variant_taken(q.conds[0][1], q.conds[0][2], q.conds[0][3])
+                    if vn == "Some":
+                        step_ok = step_ok and n(q.ret) == C(1) and stores == [(("deref", ("field", item, 0)), ("field", ("variant", decc, "Some"), 0))]
+                    elif vn == "None":
+                        step_ok = step_ok and n(q.ret) == C(0) and not stores
+                    else:
+                        step_ok = False
+                ok = gates_ok and step_ok and names == ["iter_mut", "chunks_exact", "zip"] and a0 in ([P(1)], [("deref", P(1))]) and a1 == [P(2), C(2)]
+                desc = "all() form: gates %s, step %s, iteration %s" % (gates_ok, step_ok, names)
         if step is not None:
             pre_names = [c[1].rsplit("::", 1)[-1] for c in pre.calls]
             gate = [(n(d), (taken == "otherwise") if vals == [0] else bool(taken)) for (_, d, taken, vals) in pre.conds]
@@ -518,6 +579,54 @@ def encoders(ctx, r, F):
             else:
                 desc = "pre %s gate %s rets %s" % (pre_names, [(sym.fmt(c), t) for c, t in gate], rets)
         ctx.ob(r, (nm, "shape"), ok, "%s is %s; reference len gate, dst.iter_mut().zip(src.chunks_exact(2)), *dst = %s(chunk)? else false" % (nm, desc, one), cfg=F.key, where=b.where())
+
+
+def _closure_iteration(F, b, method):
+    """(adapter names of the iterator, source taken by value?, closure body, args of the first adapter, args of the second) when the
+    function's single returning path ends in ITER.<method>(closure) with no loop of its own; else None"""
+    S = sym.Sym(b)
+    ps = [p for p in S.paths() if p.end == "return"]
+    if any(p.end == "loop" for p in S.paths()) or not ps:
+        return None
+    for p in ps:
+        calls = [c for c in p.calls if c[1].endswith("::" + method)]
+        if len(calls) != 1:
+            continue
+        it, cl = calls[0][2][0], calls[0][2][1]
+        cl = n(cl)
+        if not (cl[0] == "agg" and cl[1].startswith("closure:")):
+            return None
+        cb = F.fn(cl[1][len("closure:"):])
+        if cb is None:
+            return None
+        e = n(it)
+        while e[0] in ("ref", "deref"):
+            e = e[-1]
+        names, by_value, firsts = [], False, []
+
+        def walk(x):
+            nonlocal by_value
+            if x[0] == "call":
+                nm_ = x[1].rsplit("::", 1)[-1]
+                if nm_ in ("copied", "cloned"):
+                    by_value = True
+                    walk(x[2][0])
+                    return
+                if nm_ in ("into_iter", "by_ref"):
+                    walk(x[2][0])
+                    return
+                if nm_ == "zip":
+                    walk(x[2][0])
+                    walk(x[2][1])
+                    names.append("zip")
+                    return
+                names.append(nm_)
+                firsts.append([y for y in x[2]])
+        walk(e)
+        if len(firsts) != 2:
+            return None
+        return names, by_value, cb, firsts[0], firsts[1]
+    return None
 
 
 def loop_step(b):
